@@ -65,6 +65,26 @@ def run(ck, prog, tier, load):
     sends = [(bb, t) for bb, t in hr.calls(r"SendStream.*::send_data$")]
     data_sends = [(bb, t) for bb, t in sends if hr.op_expr(t["args"][2])[:3] == ("const", None, 0)]
     eos_sends = [(bb, t) for bb, t in sends if hr.op_expr(t["args"][2])[:3] == ("const", None, 1)]
+    for bb, t in sends:
+        fl = hr.op_expr(t["args"][2])
+        if fl[0] == "const":
+            continue
+        # a computed END_STREAM flag is acceptable only if every byte count it depends on is decremented by the
+        # length of exactly what is sent in that frame (the split_to result / its min(len, cap) argument)
+        payload = hr.op_expr(t["args"][1])
+        sp = e_calls(payload, r"Bytes::split_to$")
+        sent_len = canon(sp[0][2][1], 6) if sp and len(sp[0][2]) > 1 else None
+        subs = []
+        for x in deep_conds(hr, fl, 4):
+            for y in walk(x):
+                if y[0] == "call" and rx(r"saturating_sub$|checked_sub$|wrapping_sub$").search(y[1] or "") and len(y[2]) == 2:
+                    subs.append(y[2][1])
+                if y[0] == "bin" and y[1] in ("Sub", "SubWithOverflow"):
+                    subs.append(y[3])
+        ok = bool(subs) and all((sent_len is not None and canon(_strip(x_), 6) == sent_len) or (e_calls(x_, r"Bytes::len$") and e_calls(x_, r"Bytes::split_to$")) for x_ in subs)
+        ck.ob("C08-c.end-flag-accounting", "send_data|computed", ok, hr, bb,
+              "a computed END_STREAM flag must count exactly the bytes put into the frame (chunk.split_to(min(len, cap))); counts it depends on: %s" % [short(x_, 3) for x_ in subs])
+    data_sends = [(bb, t) for bb, t in sends if hr.op_expr(t["args"][2])[:3] != ("const", None, 1)]
     ck.anchor("C08-b", len(data_sends), 1, "send_data(_, false)")
     ck.anchor("C08-c", len(eos_sends), 1, "send_data(_, true)")
     for bb, t in data_sends:
@@ -103,6 +123,11 @@ def run(ck, prog, tier, load):
         srcs = deep_conds(hr, fl)
         ok = any(e_calls(x, r"BodySize::is_eof$") for x in srcs) and any(any(isinstance(p, str) and p.endswith("head_req") for p in y[2]) for x in srcs for y in walk(x) if y[0] == "place")
         ck.ob("C08-c.head-carries-end-flag", "handle_response", ok, hr, bb, "send_response's end-of-stream flag derives from size.is_eof() and from the HEAD flag")
+    # the size consulted for the end flag is the one prepare_response adjusted for the status (204/1xx -> None)
+    prep = [bb for bb, t in hr.calls(r"h2::dispatcher::prepare_response$")]
+    iseof = [bb for bb, t in hr.calls(r"BodySize::is_eof$")]
+    ok = bool(prep) and bool(iseof) and all(any(hr.dominates(p_, i_) for p_ in prep) for i_ in iseof)
+    ck.ob("C08-c.eof-after-status-adjustment", "handle_response", ok, hr, iseof[0] if iseof else None, "size.is_eof() is evaluated after prepare_response(.., &mut size) rewrote the size for bodiless statuses")
     # early return (no data frames) exactly when that flag is true
     early = []
     for bb in ok_rets:
@@ -198,6 +223,12 @@ def run(ck, prog, tier, load):
         ok = any(pn.dominates(r_, bb) for r_ in rel)
         amt_ok = any(e_calls(pn.op_expr(pn.term(r_)["args"][1]), r"Bytes::len$") for r_ in rel)
         ck.ob("C08-e.capacity-released", "h2::Payload::poll_next", ok and amt_ok, pn, bb, "every chunk handed to the application is preceded by release_capacity(chunk.len())")
+
+
+def _strip(e):
+    while isinstance(e, tuple) and e[0] == "cast":
+        e = e[1]
+    return e
 
 
 def loop_heads(body):
